@@ -383,7 +383,8 @@ long World::on_writev(KFd &k, const struct iovec *iov, int cnt) {
 	cl.write_attempts_turn++;
 	c10_offer(cl, iov, cnt);
 	if (cl.wr_err) { c10_result(cl, -1, cl.wr_err); errno = cl.wr_err; probe("fault:write_error"); trace.tag("w-err"); return -1; }
-	if (cl.client_closed && cl.wr_fail_after_close) { c10_result(cl, -1, EPIPE); errno = EPIPE; probe("fault:write_epipe"); trace.tag("w-epipe"); return -1; }
+	if (cl.client_closed && cl.wr_fail_after_close && cl.wr_ok_left > 0) cl.wr_ok_left--;
+	else if (cl.client_closed && cl.wr_fail_after_close) { c10_result(cl, -1, EPIPE); errno = EPIPE; probe("fault:write_epipe"); trace.tag("w-epipe"); return -1; }
 	if (total == 0) return 0;
 	if (cl.space == 0) { c10_result(cl, -1, EAGAIN); cl.blocked = true; errno = EAGAIN; probe("fault:would_block"); trace.tag("w-eagain"); return -1; }
 	size_t m = total;
